@@ -5,7 +5,10 @@ VARIABLE x
 Init == x = 0
 Next == UNCHANGED x
 \* merge tool: per chromosome, the tool's output over the inputs that have the chromosome
-StreamsOf(o, c) == Map(LAMBDA inp : Map(LAMBDA it : <<it[2], it[3], it[4]>>, SelectSeq(inp, LAMBDA it : it[1] = c)), o.inputs)
+\* input i is given o.mult[i] times
+RECURSIVE Expand(_, _, _)
+Expand(inputs, mult, i) == IF i > Len(inputs) THEN <<>> ELSE [k \in 1..mult[i] |-> inputs[i]] \o Expand(inputs, mult, i + 1)
+StreamsOf(o, c) == Map(LAMBDA inp : Map(LAMBDA it : <<it[2], it[3], it[4]>>, SelectSeq(inp, LAMBDA it : it[1] = c)), Expand(o.inputs, o.mult, 1))
 OutOf(o, c) == Map(LAMBDA it : <<it[2], it[3], it[4]>>, SelectSeq(o.obs.out, LAMBDA it : it[1] = c))
 ToolVerdict(o) ==
   IF o.obs.rc # 0 THEN "tool-failed"
